@@ -760,6 +760,11 @@ ExecStmt(M, s) ==
              M1 == ExecSeq(M0, s.body, 1) IN
          IF M1.sig = "" THEN [M1 EXCEPT !.out = Append(@, <<"end", s.name>>)] ELSE M1
     [] s.k = "event" -> [M EXCEPT !.out = Append(@, <<s.what, s.name>>)]
+    [] s.k = "print" ->     \* WRITE/PRINT of scalar variables: an observable output event
+         LET vs == EvalSeq(M, s.args)
+             M0 == NoteReads(M, UNION {ExprReads(M, s.args[i]) : i \in DOMAIN s.args}) IN
+         IF \E i \in DOMAIN vs : IsP(vs[i]) \/ IsArr(vs[i]) THEN Ub(M0)
+         ELSE [M0 EXCEPT !.out = Append(@, <<"print", vs>>)]
     [] s.k = "block" -> ExecSeq(M, s.body, 1)
     [] s.k = "accdata" ->
          \* OpenACC data region: the arrays named in copyin/copy/copyout get a
